@@ -581,3 +581,34 @@ CHECKS["C15"] = {
         "core.PubKeyFrom48Bytes / PubKeyFromBytes = opaque injective strings of the 48 key bytes; tracing/logging/metrics no-ops; goroutines run synchronously",
     ],
 }
+
+
+# ---------------------------------------------------------------------------------------------------------------
+# C12, one clause: tamper evidence of the versioned definition / lock hashes (cluster/ssz.go, definition.go, lock.go)
+_C12V = list(range(12))  # v1.0 .. v1.11
+CHECKS["C12"] = {
+    "pkg": "./cluster",
+    "parallel": 8,
+    "quick": [
+        {"harness": "VerifC12DefHash", "params": {"ver": _C12V, "nops": 2, "nvals": 2, "namts": 2, "dl": [0, 1]}},
+        {"harness": "VerifC12ConfigHash", "params": {"ver": _C12V, "nops": 2, "nvals": 2, "namts": 2, "dl": [0, 1]}},
+        {"harness": "VerifC12LockHash", "params": {"ver": _C12V, "nv": 2, "ndep": 2, "dl": [0, 1]}},
+    ],
+    "thorough": [
+        {"harness": "VerifC12DefHash", "params": {"ver": _C12V, "nops": [1, 3], "nvals": [1, 3], "namts": [1, 3], "dl": [0, 1]}, "cross": True},
+        {"harness": "VerifC12ConfigHash", "params": {"ver": _C12V, "nops": [1, 3], "nvals": [1, 3], "namts": [1, 3], "dl": [0, 1]}, "cross": True},
+        {"harness": "VerifC12LockHash", "params": {"ver": _C12V, "nv": [1, 2, 3], "ndep": [1, 2, 3], "dl": [0, 1]}, "cross": True},
+    ],
+    "bounds": {
+        "quick": "every supported format version v1.0..v1.11; two definitions / locks of one version with 2 (or 2 and 1) operators, validator address pairs, deposit amounts, 2 distributed validators with 2 public shares and 2 (or 1) partial deposits each; every string field a symbolic choice between two values, every byte-string field with a symbolic first byte, every number a symbolic byte",
+        "thorough": "same with list lengths 1 and 3 (definition) and 1..3 (lock), every VC decided by z3 and cvc5",
+    },
+    "outside": "everything else C12 states: keystores (scrypt/AES), deposit and registration BLS signatures, EIP-712 operator signatures, share reconstruction, combine, file I/O, and the JSON decode/re-encode round trip (reflection-driven encoding/json); SSZ framing ambiguities between values of different length (each field ranges over two values of equal length); the SHA-256 merkleisation itself (ideal)",
+    "assumptions": [
+        "the pooled fastssz hasher is replaced by a recording hasher: HashRoot is an ideal collision-free function of the transcript of Put*/Append*/Merkleize* calls (names, arguments, Index() positions) the real hashDefinition*/hashLock*/hashValidator* functions make",
+        "the content a file format version carries = the argument the repository's own marshalDefinitionV*/marshalLockV* hands to json.Marshal (ideal injective function of that value)",
+        "a v1.0 definition has no timestamp (the field exists from v1.1 on)",
+        "fmt.Sprintf(%#x) of a byte string is injective in the bytes",
+    ],
+    "explanation": "bounded symbolic check that the real VerifyHashes of a definition / lock rejects every object whose file content differs from the object the hashes were computed for (so no hashed field is left out or confused with another by any version's hash function); ideal hash",
+}
